@@ -85,7 +85,7 @@ void prop_c19(hz::Ctx &ctx) {
   std::vector<size_t> sizes; for (size_t s = 0; s <= 64; s++) sizes.push_back(s);
   for (int q = 1; q <= 4; q++) for (int d = -4; d <= 4; d++) sizes.push_back(4096 * q + d);
   for (size_t s : {100u, 1000u, 5000u, 9999u, 20000u}) sizes.push_back(s);
-  int reps = ctx.thorough() ? 24 : 6;
+  int reps = ctx.thorough() ? 48 : 12;
   for (size_t size : sizes) for (int rep = 0; rep < reps; rep++) for (int mode = 0; mode < 2; mode++) {
     bool failing = rep % 3 == 2, final_nl = rep & 1, crlf = (rep >> 1) & 1;
     C19Case c; c.content = sized_content(P, r, size, failing, final_nl, crlf); c.combo = (int)r.below(12); c.mode = mode; static const int CH[] = {0, 1, 2, 5, 16, 17, 64}; c.chunk = CH[r.below(7)]; c.start = r.below(3) == 0 ? (int)r.below(200) : 0; c.special = rep % 2 == 0 && mode == 0 ? 3 : 0;
@@ -101,7 +101,7 @@ void prop_c19(hz::Ctx &ctx) {
   // rapidcheck: arbitrary sizes up to several pages
   auto gen_case = rc::gen::apply([&](int size, int seed, int combo, int mode, int chunk, bool nl, bool crlf, bool failing, int start) { hz::Rng rr((uint64_t)seed); C19Case c; c.content = sized_content(P, rr, (size_t)size, failing, nl, crlf); c.combo = combo; c.mode = mode; c.chunk = chunk; c.start = start; c.special = (seed & 3) == 0 ? 3 : 0; return c; },
     range(0, 17000), range(0, 1 << 30), range(0, 12), range(0, 2), range(0, 40), rc::gen::arbitrary<bool>(), rc::gen::arbitrary<bool>(), rc::gen::arbitrary<bool>(), range(0, 300));
-  rc_rounds(ctx, "C19-files", ctx.thorough() ? 40000 : 4000, 100, [&]() {
+  rc_rounds(ctx, "C19-files", ctx.thorough() ? 100000 : 12000, 100, [&]() {
     C19Case c = *gen_case; std::string id = ser19(c); if (!ctx.begin(id, "file of " + std::to_string(c.content.size()) + " bytes")) return;
     ctx.cls("part:random"); if (c.content.size() % 4096 == 0) ctx.nontrivial(id);
     FV v = check19(c);
@@ -186,7 +186,7 @@ static hz::Failure fail17(const C17Case &c, const FI &v) { hz::Failure f; f.case
 void prop_c17(hz::Ctx &ctx) {
   if (!have_fi()) { hz::Failure f; f.caseid = "C17|nofi"; f.text = "engine built without fault layer"; f.symptom = "harness"; f.tags = {"sym:harness"}; ctx.fail(f); return; }
   const Pool &P = pool(ctx);
-  int variants = ctx.thorough() ? 40 : 6;
+  int variants = ctx.thorough() ? 80 : 16;
   for (int scn = 0; scn < 7; scn++) for (int var = 0; var < variants; var++) {
     C17Case base; base.scenario = scn; base.seed = ctx.seed * 131 + scn * 17 + var; base.poolseed = ctx.seed;
     // counting run: how many interposed calls does the scenario make (identical in every worker)
